@@ -278,7 +278,7 @@ Definition wit_suffix : list net_event :=
    NTick tcp_ACK_DELAY_DEFAULT; NPoll SB true; NDeliver SA 1;
    NTick 400000000].
 
-Definition wit_check_gen (ca cb : ep_config) (pre suf : list net_event) (Dt Da Dack L : Z) (n : nat) : bool :=
+Definition wit_check_gen (ca cb : ep_config) (pre suf : list net_event) (Dt Da Dack L : Z) (n m : nat) : bool :=
   match net_init ca cb with
   | Ok st0 =>
       match net_run st0 pre with
@@ -286,8 +286,9 @@ Definition wit_check_gen (ca cb : ep_config) (pre suf : list net_event) (Dt Da D
           opts_okb st && fair_runb Dt Da (fa_init Dt Da st) st suf &&
           run_allb SA Dack st suf &&
           (L <=? l_len (ep_written (net_get st SA))) && (L - una_off (net_get st SA) <=? Z.of_nat n) &&
+          (L - read_off (net_get st SB) <=? Z.of_nat m) && (0 <=? Dt) && (0 <=? Da) && (0 <=? Dack) &&
           match net_run st suf with
-          | Ok st' => net_now st SA + Z.of_nat n * W3 Dt Dack <? net_now st' SA
+          | Ok st' => net_now st SA + Z.of_nat n * W3 Dt Dack + Z.of_nat m * Da <? net_now st' SA
           | _ => false
           end
       | _ => false
@@ -296,21 +297,26 @@ Definition wit_check_gen (ca cb : ep_config) (pre suf : list net_event) (Dt Da D
   end.
 
 (* the run is kept abstract here and evaluated only by vm_compute below *)
-Lemma wit_package ca cb pre suf Dt Da Dack L n :
+Lemma wit_package ca cb pre suf Dt Da Dack L n m :
   cc_ok (c_cc ca) -> cc_ok (c_cc cb) -> 0 <= c_now ca -> 0 <= c_now cb ->
-  wit_check_gen ca cb pre suf Dt Da Dack L n = true ->
+  wit_check_gen ca cb pre suf Dt Da Dack L n m = true ->
   exists st0 st st',
     net_init ca cb = Ok st0 /\ net_run st0 pre = Ok st /\
     NI st /\ opts_ok st /\ dl_sync Da (fa_init Dt Da st) st /\
     run_all (safe3 SA Dack) st suf /\ fair_run Dt Da (fa_init Dt Da st) st suf /\
     net_run st suf = Ok st' /\
     L <= l_len (ep_written (net_get st SA)) /\ L - una_off (net_get st SA) <= Z.of_nat n /\
-    net_now st SA + Z.of_nat n * W3 Dt Dack < net_now st' SA.
+    L - read_off (net_get st SB) <= Z.of_nat m /\ 0 <= Dt /\ 0 <= Da /\ 0 <= Dack /\
+    net_now st SA + Z.of_nat n * W3 Dt Dack + Z.of_nat m * Da < net_now st' SA.
 Proof.
   intros C1 C2 C3 C4 H. unfold wit_check_gen in H.
   destruct (net_init ca cb) as [st0|e|] eqn:Ei; try discriminate.
   destruct (net_run st0 pre) as [st|e|] eqn:Ep; try discriminate.
   apply andb_true_iff in H. destruct H as (H & Hclk).
+  apply andb_true_iff in H. destruct H as (H & Hd3).
+  apply andb_true_iff in H. destruct H as (H & Hd2).
+  apply andb_true_iff in H. destruct H as (H & Hd1).
+  apply andb_true_iff in H. destruct H as (H & Hm).
   apply andb_true_iff in H. destruct H as (H & Hu).
   apply andb_true_iff in H. destruct H as (H & Hw).
   apply andb_true_iff in H. destruct H as (H & Hra).
@@ -323,7 +329,7 @@ Proof.
   split; [exact Es|]. lia.
 Qed.
 
-Lemma wit_check_ok : wit_check_gen ex_cfg_a ex_cfg_b wit_prefix wit_suffix 5000 5000 10000 5 5 = true.
+Lemma wit_check_ok : wit_check_gen ex_cfg_a ex_cfg_b wit_prefix wit_suffix 5000 5000 10000 5 5 5 = true.
 Proof. vm_compute. reflexivity. Qed.
 
 Lemma ex_cfg_cc : cc_ok (c_cc ex_cfg_a) /\ cc_ok (c_cc ex_cfg_b) /\ 0 <= c_now ex_cfg_a /\ 0 <= c_now ex_cfg_b.
@@ -334,8 +340,8 @@ Qed.
 Lemma wit_prefix_lossy : In (NDrop SB 2) wit_prefix.
 Proof. unfold wit_prefix. cbn [In]. tauto. Qed.
 
-(* every hypothesis of all_written_bytes_eventually_acked (x = A, Dt = Da = 5 ms, Dack = 10 ms, n = 5,
-   L0 = 5) holds on this run, which starts after a real loss *)
+(* every hypothesis of all_written_bytes_eventually_delivered (x = A, Dt = Da = 5 ms, Dack = 10 ms,
+   n = m = 5, L0 = 5) holds on this run, which starts after a real loss *)
 Theorem composition_hypotheses_satisfiable :
   exists st0 st st',
     net_init ex_cfg_a ex_cfg_b = Ok st0 /\ net_run st0 wit_prefix = Ok st /\
@@ -343,24 +349,24 @@ Theorem composition_hypotheses_satisfiable :
     run_all (safe3 SA 10000) st wit_suffix /\ fair_run 5000 5000 (fa_init 5000 5000 st) st wit_suffix /\
     net_run st wit_suffix = Ok st' /\
     5 <= l_len (ep_written (net_get st SA)) /\ 5 - una_off (net_get st SA) <= Z.of_nat 5 /\
-    net_now st SA + Z.of_nat 5 * W3 5000 10000 < net_now st' SA.
+    5 - read_off (net_get st SB) <= Z.of_nat 5 /\ 0 <= 5000 /\ 0 <= 5000 /\ 0 <= 10000 /\
+    net_now st SA + Z.of_nat 5 * W3 5000 10000 + Z.of_nat 5 * 5000 < net_now st' SA.
 Proof.
   destruct ex_cfg_cc as (C1 & C2 & C3 & C4).
-  exact (wit_package _ _ _ _ _ _ _ _ _ C1 C2 C3 C4 wit_check_ok).
+  exact (wit_package _ _ _ _ _ _ _ _ _ _ C1 C2 C3 C4 wit_check_ok).
 Qed.
 
-(* ... so the theorem applies to it: the run passes through a state in which all 5 octets are
-   acknowledged and accepted by B's receive path *)
+(* ... so the theorem applies to it: the run passes through a state in which all 5 octets have been
+   handed to B's application *)
 Theorem composition_applies :
   exists st0 st st',
     net_init ex_cfg_a ex_cfg_b = Ok st0 /\ net_run st0 wit_prefix = Ok st /\ net_run st wit_suffix = Ok st' /\
     exists pre post st1, wit_suffix = pre ++ post /\ net_run st pre = Ok st1 /\ net_run st1 post = Ok st' /\
-                         5 <= una_off (net_get st1 SA) /\ 5 <= rcv_off (net_get st1 SB).
+                         5 <= read_off (net_get st1 SB).
 Proof.
   destruct composition_hypotheses_satisfiable
-    as (st0 & st & st' & Ei & Ep & HN & Ho & Hsy & HR & Hf & Es & HL & Hn & Hclk).
+    as (st0 & st & st' & Ei & Ep & HN & Ho & Hsy & HR & Hf & Es & HL & Hn & Hm & H1 & H2 & H3 & Hclk).
   exists st0, st, st'. split; [exact Ei|]. split; [exact Ep|]. split; [exact Es|].
-  assert (H1 : 0 <= 5000) by lia. assert (H2 : 0 <= 10000) by lia.
-  exact (all_written_bytes_eventually_acked SA 5000 5000 10000 5 wit_suffix (fa_init 5000 5000 st) st st' 5
-           H1 H2 HN Ho Hsy HR Hf Es HL Hn Hclk).
+  exact (all_written_bytes_eventually_delivered SA 5000 5000 10000 5 5 wit_suffix (fa_init 5000 5000 st) st st' 5
+           H1 H3 H2 HN Ho Hsy HR Hf Es HL Hn Hm Hclk).
 Qed.
